@@ -8,8 +8,8 @@ func init() {
 		"C02": "spancheck: where a gff reader rejects a line by comparing the parsed start and end columns, the normal form of the test is end - start1 < 0 (emptiness of [start1-1, end)). linelimit: no bed/gff reader obtains its lines from a bufio.Scanner with the default 64 KiB token limit.",
 		"C03": "recovercover: from bed/gff Reader.Read every call path to a package function containing an explicit panic passes a function that defers handlePanic. arrayrange: a subscript of a fixed-size array in package alphabet that is an unguarded affine function of one small-typed value (a byte, an int8 score) takes every value of its exact interval; the interval must lie inside the array.",
 		"C04": "linelimit: as C02, for all four readers.",
-		"C06": "parallelidx: a loop in Compose that ranges over one slice and indexes another with the same counter requires the ranged slice to be make([]T, len(other)) (or vice versa), not a list built by conditional appends. trimwindow: in Trim the returned start is initialised from q.Start() and takes new values only at the join where the returned end does (the start of a window is committed with its end).",
-		"C07": "flagcases: every path through IsFlush's row loop to the next row carries, for the start and for the end, the unset-flag edge or the equal-coordinate edge. fillwatermark: the prefix-doubling copy loops of Letter.Repeat/QLetter.Repeat end only on watermark >= len(r).",
+		"C06": "parallelidx: a loop in Compose that ranges over one slice and indexes another with the same counter requires the ranged slice to be make([]T, len(other)) (or vice versa), not a list built by conditional appends. trimwindow: in Trim the returned start is initialised from q.Start() and takes new values only at the join where the returned end does (the start of a window is committed with its end). nonneglen: every length/capacity handed to Make in Truncate, Stitch and Compose is non-negative by construction (constant, length, max with zero, sums, clamp) or by the dominating range checks (difference constraints).",
+		"C07": "flagcases: every path through IsFlush's row loop to the next row carries, for the start and for the end, the unset-flag edge or the equal-coordinate edge. fillwatermark: the prefix-doubling copy loops of Letter.Repeat/QLetter.Repeat end only on watermark >= len(r). reflectnew: no row is created by reflect.New(reflect.TypeOf(v)) of an interface value whose module implementations are pointers (a pointer to a pointer has no methods; the assertion to the row interface panics).",
 		"C08": "tablezero: the DP table (the slice stored into at i*c+j) is a fresh make() or explicitly cleared. argmaxlayer: where the traceback chooses its start layer at the final cell it does so by a running maximum (comparison against the best so far), not by two comparisons against the same third layer.",
 		"C09": "emitnotscore: no emission of a finished block in a traceback is conditional on the block's accumulated score being non-zero. tablezero: as C08.",
 		"C10": "noexpose: no exported method of Index returns (a sub-slice of) the internal pos/finger tables. preloadbound: the exit test of the preload loop implies that the first reported position is >= start (difference constraints). windowpos: position + k - 1 equals the subscript of the letter just shifted in (initial values of the two counters as linear forms, equal steps).",
